@@ -60,6 +60,7 @@ class Runner:
     def run_batch(self, cases, group):
         prof = self.profile
         builds = prof.get("builds", ["normal"])
+        if self.tier == "quick": builds = prof.get("builds_quick", builds)
         what = prof.get("compare", ("out", "exit", "diag", "files"))
         models = core.run_model_many(cases) if prof.get("use_model", True) else [None] * len(cases)
         reals = {b: core.run_real_many(self.exe(b), cases, timeout=prof.get("timeout", 20)) for b in builds}
